@@ -137,6 +137,16 @@ class State:
         return None
 
 
+def tnot_(t):
+    if t == TRUE:
+        return FALSE
+    if t == FALSE:
+        return TRUE
+    if isinstance(t, tuple) and t[:2] == ("app", "not"):
+        return t[2][0]
+    return ("app", "not", (t,))
+
+
 class Unsupported(Exception):
     pass
 
@@ -353,6 +363,14 @@ class Executor:
             # Option/Result sugar
             if variant in ("Some", "None", "Ok", "Err") and adt in ("std::option::Option", "std::result::Result"):
                 return self._match_optres(p, v, st, variant)
+            # map entry: Occupied ⇔ the lookup found the key
+            if variant in ("Occupied", "Vacant") and isinstance(v, tuple) and v[:1] == ("entry",):
+                sub = p.get("pats", [None])[0] if p["k"] == "TupleStruct" and p.get("pats") else None
+                inner = ("occupied" if variant == "Occupied" else "vacant",) + tuple(v[1:])
+                cond = app("is_some", v[3]) if variant == "Occupied" else tnot_(app("is_some", v[3]))
+                if sub is not None:
+                    cond = self._cand(cond, self.match_pat(sub, inner, st))
+                return cond
             if v[0] == "ctor":
                 if v[2] != variant:
                     return False
@@ -485,6 +503,8 @@ class Executor:
         def k(s, v):
             if n.get("from") == n.get("to"):
                 return [(s, ("val", v))]
+            if v[0] == "lit" and isinstance(v[1], bool) and str(n.get("to")) in ("u8", "u16", "u32", "u64", "usize", "i8", "i16", "i32", "i64", "isize"):
+                return [(s, ("val", lit(int(v[1]))))]
             return [(s, ("val", app("cast", lit(n.get("to")), v)))]
         return self.bind(self.ev(n["e"], st), k)
 
@@ -635,6 +655,12 @@ class Executor:
                 # position being visited (the same effect as `xs[i] = v` in an index loop)
                 self.effect(st, "store_index", (("app", "iterated_by", (cur,)), cur, v), node=node)
                 return [(st, ("val", UNIT))]
+            if derefs and isinstance(cur, tuple) and cur[:1] == ("payload",):
+                # `*slot = v` where slot came from `xs.get_mut(i)` (checked access): a store into xs at i
+                for e in reversed(st.eff):
+                    if e["k"] == "call" and e.get("res") == cur[1] and e["args"][0][1].rsplit("::", 1)[-1] == "get_mut" and len(e["args"]) == 3:
+                        self.effect(st, "store_index", (e["args"][1], e["args"][2], v), node=node, checked=cur[1])
+                        return [(st, ("val", UNIT))]
             st.env[l["res"]["lid"]] = v
             return [(st, ("val", UNIT))]
         if l["k"] == "Field":
@@ -1308,12 +1334,50 @@ class Executor:
         cal = n.get("callee") or {}
         path = cal.get("inst") or cal.get("def") or ("?::" + n["name"])
         head = self.INPLACE.get(n["name"])
-        rcv = peel(n["recv"]) if head else None
+        grow = n["name"] in ("push", "push_back", "push_front", "extend", "append", "extend_from_slice") and not (cal.get("local") or cal.get("inst_local"))
+        rcv = peel(n["recv"]) if (head or grow) else None
         lid = rcv["res"]["lid"] if rcv and rcv.get("k") == "Path" and (rcv.get("res") or {}).get("k") == "Local" else None
+        if grow and lid is not None and len(n["args"]) == 1:
+            rty = (self.fx.ty(rcv) or "")
+            cur = st.env.get(lid)
+            owned = rty.startswith(("std::vec::Vec<", "std::collections::VecDeque<", "std::collections::vec_deque::VecDeque<"))
+            is_seq_term = isinstance(cur, tuple) and cur[:1] in (("var",), ("app",), ("payload",)) and not (cur[:1] == ("app",) and cur[1] in ("call",))
+            if owned and is_seq_term:
+                # an *owned* vector that holds a sequence term (a parameter, the result of a call, a concatenation) and is
+                # grown in place: from here on the variable holds the longer sequence — `concat(old, [x])`, `concat(old, ys)`
+                def kg(s, vs):
+                    x = vs[0]
+                    if n["name"] in ("extend", "append", "extend_from_slice"):
+                        part = x[1] if (x[:1] == ("iter",) and x[2] == "fwd" and not x[3]) else x
+                        if part[:1] == ("iter",):
+                            s.env[lid] = app("grown", s.env.get(lid), part)      # adapted iterator: contents not followed
+                            return [(s, ("val", UNIT))]
+                    else:
+                        part = app("array", x)
+                    old = s.env.get(lid)
+                    parts = (part, old) if n["name"] == "push_front" else (old, part)
+                    flat = []
+                    for q in parts:
+                        flat.extend(q[2] if (q[:2] == ("app", "concat")) else (q,))
+                    s.env[lid] = ("app", "concat", tuple(flat))
+                    return [(s, ("val", UNIT))]
+                res = []
+                ok = True
+                for s0, o0 in self.ev_list(n["args"], st):
+                    if o0[0] != "val":
+                        res.append((s0, o0))
+                        continue
+                    r = kg(s0, o0[1])
+                    if r is None:
+                        ok = False
+                        break
+                    res.extend(r)
+                if ok:
+                    return res
 
         def k(s, vs):
             res = self.call_path(path, cal, vs[0], list(vs[1:]), n, s)
-            if lid is not None and isinstance(vs[0], tuple) and vs[0][:1] not in (("obj",), ("iter",)) and not (cal.get("local") or cal.get("inst_local")):
+            if head is not None and lid is not None and isinstance(vs[0], tuple) and vs[0][:1] not in (("obj",), ("iter",)) and not (cal.get("local") or cal.get("inst_local")):
                 # `xs.sort_by_key(f)` on a variable that holds a sequence *term* (a parameter, a field, a collected copy of
                 # one): from here on the variable holds the reordered / shrunk sequence, not the original one
                 new = app(head, vs[0], *vs[1:])
